@@ -5,7 +5,7 @@
    is an order-preserving merge of the two sources' message sequences l and r.  Rows are identified by
    Value.Compare = 0 (row_eqb), bags are signed multiplicities ([consolidate]).  The key expressions kl / kr are
    arbitrary functions of the record that respect row equality ([proj cols], column references, do). *)
-From Octo Require Import Joins JoinsBase JoinsProofs ChangelogLemmas.
+From Octo Require Import Joins JoinsBase JoinsProofs GenJoinProofs OuterJoinProofs OuterJoinProofs2 ChangelogLemmas.
 
 (* At end of stream (the node returned nil: phase Done, reached only after both sources closed) the consolidated
    output equals the relational join (NULL keys match nothing) of the complete consolidated inputs — for ALL
@@ -33,7 +33,7 @@ Print Assumptions C19_final.
    received so far that have no event time or an event time <= W. *)
 Theorem C19_at_watermark : forall kl kr nl, key_respects kl -> key_respects kr ->
   forall L R pre sm post st os st' o W,
-  interleave L R (pre ++ sm :: post) -> scripts_ok nl L R -> scripts_timed L R ->
+  interleave L R (pre ++ sm :: post) -> JoinsProofs.scripts_ok nl L R -> scripts_timed L R ->
   sj_run_steps kl kr jinit pre = (st, os) -> sj_step kl kr st sm = (st', o ++ [WM W]) ->
   forall x, consolidate (records (concat os ++ o ++ [WM W])) x =
             bag_join kl kr nl (consolidate (restrict_le W (received SL (pre ++ [sm]))))
@@ -71,7 +71,7 @@ Example C19_hypotheses_satisfiable :
   let r := [MRec (mkrec [VInt 1; VInt 20] false 4); MRec (mkrec [VInt 1; VInt 21] false zero_ns); MWM 7; MClose] in
   exists sigma st os,
     merge [false; true; true; false; false; false; true; true; true; true] l r = Some sigma /\
-    scripts_ok 2 l r /\ scripts_timed l r /\
+    JoinsProofs.scripts_ok 2 l r /\ scripts_timed l r /\
     sj_run_steps k1 k1 jinit sigma = (st, os) /\ phase st = Done /\
     In (WM 6) (concat os) /\
     consolidate (records (concat os)) [VInt 1; VInt 12; VInt 1; VInt 20] = 1 /\
@@ -106,12 +106,52 @@ Theorem C19_final_null_keys_refuted :
 Proof. exact pinned_null_keys_match. Qed.
 Print Assumptions C19_final_null_keys_refuted.
 
-(* OUTER JOIN.  Full statements (NOT proved in this round; the outer join is covered by the differential tie on
-   exact per-message emissions and by both oracles evaluated on the implementation's output, see design/C19.md):
-     C19_outer_final : as C19_final with [oj_run_steps kl kr ol or nl nr] and
-        consolidate (outer_list kl kr ol or nl nr (msg_recs l) (msg_recs r)) x  on the right-hand side;
-     C19_outer_at_watermark : as C19_at_watermark, likewise.
-   Proved: the pinned outer join pairs NULL keys instead of padding both rows, the fixed model does not. *)
+(* OUTER JOIN (LEFT: ol = true, RIGHT: or = true, FULL: both).  [oj_step]/[oj_run_steps] is OuterJoin.Run after the
+   NULL-key fix.  The reference [outer_list] is the pairwise join plus, for each outer side, one NULL-padded row per
+   record of that side whose key has no partner among the records present on the other side (NULL keys have none).
+   Invariant (Appendix A.1, outer clause; Proofs/OuterJoinProofs.v): both trees = consolidated processed NULL-free
+   records; output = bilinear join of the processed sets + padded rows of every processed outer-side row whose key has
+   no record in the other tree; one receiveRecord changes these sums by exactly what it emits ("retract pads, emit
+   matches, re-pad"; a NULL-key record is emitted padded and never inserted). *)
+
+(* At end of stream: for ALL scripts and ALL interleavings, whichever side closes first. *)
+Theorem C19_outer_final : forall kl kr ol or nl nr, key_respects kl -> key_respects kr ->
+  forall l r sigma st os,
+  interleave l r sigma ->
+  plain_script l = true -> plain_script r = true ->
+  (forall x, In x (msg_recs l) -> length (vals x) = nl) -> (forall x, In x (msg_recs r) -> length (vals x) = nr) ->
+  (forall x, In x (msg_recs l ++ msg_recs r) -> et x <= max_wm) ->
+  oj_run_steps kl kr ol or nl nr jinit sigma = (st, os) -> phase st = Done ->
+  forall x, consolidate (records (concat os)) x =
+            consolidate (outer_list kl kr ol or nl nr (msg_recs l) (msg_recs r)) x.
+Proof.
+  intros kl kr ol or nl nr Hkl Hkr l r sigma st os Hil Hl Hr Ha Ha' Hm.
+  exact (oj_final kl kr ol or nl nr Hkl Hkr l r sigma st os Hil (conj Hl (conj Hr (conj Ha Ha'))) Hm).
+Qed.
+Print Assumptions C19_outer_final.
+
+(* Whenever a step ends by emitting watermark W (well-timed scripts), the consolidated output so far is the outer join
+   of the records received so far with no event time or event time <= W. *)
+Theorem C19_outer_at_watermark : forall kl kr ol or nl nr, key_respects kl -> key_respects kr ->
+  forall L R pre sm post st os st' o W,
+  interleave L R (pre ++ sm :: post) -> GenJoinProofs.scripts_ok (arO nl nr) L R -> scripts_timed L R ->
+  oj_run_steps kl kr ol or nl nr jinit pre = (st, os) -> oj_step kl kr ol or nl nr st sm = (st', o ++ [WM W]) ->
+  forall x, consolidate (records (concat os ++ o ++ [WM W])) x =
+            consolidate (outer_list kl kr ol or nl nr (restrict_le W (received SL (pre ++ [sm])))
+                                                      (restrict_le W (received SR (pre ++ [sm])))) x.
+Proof. exact oj_at_watermark_prefix. Qed.
+Print Assumptions C19_outer_at_watermark.
+
+(* The reference on consolidated bags ("bag_outer_join"): bilinear join + padded rows [pad_l] of each outer side. *)
+Theorem C19_outer_list_is_bag_outer_join : forall kl kr ol or nl nr, key_respects kl -> key_respects kr ->
+  forall L R x, (forall r, In r L -> length (vals r) = nl) -> (forall r, In r R -> length (vals r) = nr) ->
+  consolidate (outer_list kl kr ol or nl nr L R) x =
+  bag_join kl kr nl (consolidate L) (consolidate R) x +
+  (if ol then pad_l kl kr nl nr SL L R x else 0) + (if or then pad_l kl kr nl nr SR R L x else 0).
+Proof. intros kl kr ol or nl nr Hkl Hkr L R x. exact (outer_list_cons kl kr ol or nl nr Hkl Hkr L R x). Qed.
+Print Assumptions C19_outer_list_is_bag_outer_join.
+
+(* The pinned outer join pairs NULL keys instead of padding both rows: *)
 Theorem C19_outer_final_pinned_refuted :
   let '(st, out) := oj_run_pinned k1 k1 true true 2 2 jinit wnull_sigma in
   phase st = Done /\
@@ -120,6 +160,7 @@ Theorem C19_outer_final_pinned_refuted :
 Proof. exact pinned_outer_null_keys_match. Qed.
 Print Assumptions C19_outer_final_pinned_refuted.
 
+(* instances on the witnesses (kept from the first round; subsumed by C19_final / C19_outer_final) *)
 Theorem C19_outer_final_partial :
   (let '(st, out) := sj_run k1 k1 jinit w19_sigma in
    phase st = Done /\ bag_eqb (records out) (join_list k1 k1 (msg_recs w19_left) (msg_recs w19_right)) = true) /\
